@@ -1,6 +1,7 @@
 import GwModel.ExecFacts
 import GwModel.ErrList
 import GwModel.Gen.Facts
+import GwModel.Exec.ErrOrder
 /-! # C07 — Failures are reported faithfully and stay contained
 
 Machine level (any forest, any failure pattern, any schedule): at return the collector has recorded
@@ -33,6 +34,18 @@ theorem no_failure_no_error (ts : Tasks) (hwf : WF ts) {s : St} (hr : Reach cfg 
 theorem failed_or_not_every_result_is_merged (ts : Tasks) (hwf : WF ts) {s : St} (hr : Reach cfg ts s)
     (hret : s.returned = true) : ∀ t < ts.length, t ∈ s.order :=
   fun t ht => (returns_after_all_merged cfg_safe hwf hr hret t ht).1
+
+/-- the machine's `done` action records the error and lets `Execute` go on in one step; that is faithful because
+    the source records the error first (`errsBeforeDone`, part of `facts_safe`): with that order no schedule
+    of collector and `Execute` returns without the error of the last reply … -/
+theorem the_error_of_the_last_reply_is_not_lost (as : List ErrOrder.Act) (s : ErrOrder.St) (n : Nat)
+    (h : ErrOrder.run (ErrOrder.init [.record, .done]) as = some s) (hr : s.returned = some n) : n = 1 :=
+  ErrOrder.record_then_done_never_loses as s n h hr
+
+/-- … and the other order has a schedule that does -/
+theorem done_before_recording_can_lose_it :
+    (ErrOrder.run (ErrOrder.init [.done, .record]) [.collector, .main, .collector]).map (·.returned) = some (some 0) :=
+  ErrOrder.done_then_record_can_lose
 
 /-- the reported list is the flattening of what was recorded, independent of the order of recording -/
 theorem reported_errors_order_independent {α : Type} {a b : List (ErrList.E α)} (h : a.Perm b) :
